@@ -166,6 +166,8 @@ pub trait ProfibusPhy {
         // TODO: Limit this loop in some way?  Or is it enough to rely on the receive-buffer being
         // finite?
         loop {
+            #[cfg(feature = "verif-hooks")]
+            crate::verif::burn("ProfibusPhy::receive_all_telegrams");
             let (is_last, res) = self.receive_data(now, |buffer| {
                 match crate::fdl::Telegram::deserialize(buffer) {
                     // Discard all received data on error.
